@@ -40,14 +40,6 @@ Definition create_table (p : list Q) : table_result :=
   else if (length (table_slots 0 (table_ks p)) =? 256)%nat then TableOnly J
   else TableError.
 
-(* unrepaired behaviour (tree 8b17bd8), kept for the refutation witness *)
-Definition create_table_old (p : list Q) : table_result :=
-  let thetas := table_thetas p in
-  let s := Qred (qsum thetas) in
-  if Qltb 0 s then
-    let a := create_alias (map (fun t => Qred (t / s)) thetas) in TableAlias (table_J p) (fst a) (snd a)
-  else TableError.
-
 (* _sample_one with the byte b = i & 255 and the alias uniform u; None: no state can be produced *)
 Definition table_draw (t : table_result) (b : nat) (u : Q) : option Z :=
   match t with
